@@ -10,7 +10,8 @@ SPEC = {
         "C08_offline_is_disable_list", "C08_offline_list_shape", "C08_table_rules_wellformed",
         "C08_table_lists_satisfy_premises", "C08_nonvacuous",
         "C08_offline_runs_no_online_check", "C08_offline_keeps_offline_checks", "C08_checks_run_in_declared_states",
-        "C08_states_table", "C08_offline_flag_end_to_end", "C08_offline_nonvacuous"]},
+        "C08_states_table", "C08_offline_flag_end_to_end", "C08_flag_handling_of_the_source",
+        "C08_cli_enabled_replaces_file_list", "C08_offline_nonvacuous"]},
     "harness_args": lambda tier: ["C08", "--n", 24 if tier == "quick" else 450],
     "search_args": lambda tier: ["C08", "--n", 150],
     "level": "proof",
@@ -18,15 +19,18 @@ SPEC = {
         "Coq 8.16.1 kernel + VM (vm_compute for the finite table theorems and the correspondence); no axioms",
         "translator (/verif/translator core.go, go/ast): CheckNames, OnlineChecks, Reporter()/Meta() per check type, every "
         "newParsedRule/baseParsedRule registration site of parsed_rule.go -> Gen/Tables.v (regenerated every run, fails closed)",
+        "translator ext_C08.go (go/ast of cmd/pint/main.go): how actionSetup applies --disabled / --enabled / --offline (SetDisabledChecks, replace-when-non-empty, "
+        "DisableOnlineChecks, in this order) -> Gen/C08.v; any other statement touching the check switches is a translator error",
         "correspondence: real config.Load + SetDisabledChecks + DisableOnlineChecks + GetChecksForEntry (overlay build of the current tree) "
         "vs Model/CheckSwitch.v on generated configs (incl. the identical check in 2-3 blocks with different selectors) x flags x entries (real finder) x command; each live check object is also compared with the generated tables",
         "inputs of the model not modelled here: isMatch verdicts (C09), comment parsing (C07/C10), regexp engine (oracle table computed with Go's regexp), HCL decoding",
         "harness export harness/shared_config/export_config.go repeats the construction half of GetChecksForEntry (ErrorCheck | baseRules ++ parseRule) to expose the parsed rules",
         "oracle on the real binary, fixed bases: pint lint --json runs (and one pint ci repository for rule/dependency) that differ from an all-kinds baseline by one "
-        "--disabled/--enabled/checks{}/rule{disable}/rule{enable}/--offline, for every check name; 26 of 27 reporters are triggered (promql/syntax excluded on purpose)",
+        "--disabled/--enabled/checks{}/rule{disable}/rule{enable}/--offline, for every check name, and every CLI switch crossed with its configuration-file counterparts (--enabled x checks{enabled} with the name inside / outside the file's list, "
+        "--disabled x checks{enabled}, --enabled x checks{disabled} same / other name, --disabled x checks{disabled}; documented precedence: --enabled replaces, --disabled adds, disabled wins); all 27 reporters are triggered",
         "oracle on the real binary, random bases (harness/C08/c08_pairs.go): base = 1-3 unreachable prometheus servers with tags x locked or not x --disabled values "
-        "(names, String() forms name(server...), tag forms name(+tag), regexps) x --enabled x checks{disabled} x --offline x rule{enable}/rule{disable} blocks with and without match; "
-        "step = one more switch (--offline, -d N, -d 'N(server)', -d 'N(+tag)', checks{disabled+=N}, rule{disable=[N]}, -e E); run(base+step) must equal run(base) filtered by reporter "
+        "(names, String() forms name(server...), tag forms name(+tag), regexps) x --enabled x checks{disabled} x checks{enabled} x --offline x rule{enable}/rule{disable} blocks with and without match; "
+        "step = one more switch (--offline, -d N, -d 'N(server)', -d 'N(+tag)', checks{disabled+=N}, rule{disable=[N]}, -e E; with checks{enabled} in the file: -e E with names inside and outside the file's list, compared with the same run without the file's list); run(base+step) must equal run(base) filtered by reporter "
         "(server-bound instances: multiplicity of the per-server 'unable to run checks' problems); the expectation never looks at pint's switching code",
     ],
     "assumptions": [
